@@ -1,140 +1,88 @@
 // Driver translation unit for the static checks in /verif.
 // It is never linked or run: it exists so that clang type-checks (and, for the
 // IR route, code-generates) every header-only / template part of the public
-// API in one unit.  Explicit instantiations give the analyser concrete bodies.
+// API in one unit.  Uses (calls) of every template give the analyser concrete bodies.
 #include "clipper2/clipper.h"
 #include "clipper2/clipper.export.h"
 
-namespace Clipper2Lib {
-
-// ---- path utilities (clipper.h / clipper.core.h) ---------------------------
-template Path<int64_t> SimplifyPath<int64_t>(const Path<int64_t>&, double, bool);
-template Path<double>  SimplifyPath<double>(const Path<double>&, double, bool);
-template Paths<int64_t> SimplifyPaths<int64_t>(const Paths<int64_t>&, double, bool);
-template Paths<double>  SimplifyPaths<double>(const Paths<double>&, double, bool);
-template void RDP<int64_t>(const Path<int64_t>, std::size_t, std::size_t, double, std::vector<bool>&);
-template void RDP<double>(const Path<double>, std::size_t, std::size_t, double, std::vector<bool>&);
-template Path<int64_t> RamerDouglasPeucker<int64_t>(const Path<int64_t>&, double);
-template Path<double>  RamerDouglasPeucker<double>(const Path<double>&, double);
-template Paths<int64_t> RamerDouglasPeucker<int64_t>(const Paths<int64_t>&, double);
-template Paths<double>  RamerDouglasPeucker<double>(const Paths<double>&, double);
-template Path<int64_t> Ellipse<int64_t>(const Point<int64_t>&, double, double, size_t);
-template Path<double>  Ellipse<double>(const Point<double>&, double, double, size_t);
-template Path<int64_t> Ellipse<int64_t>(const Rect<int64_t>&, size_t);
-template Path<double>  Ellipse<double>(const Rect<double>&, size_t);
-template double Length<int64_t>(const Path<int64_t>&, bool);
-template double Length<double>(const Path<double>&, bool);
-template double Distance<int64_t>(const Point<int64_t>, const Point<int64_t>);
-template bool NearCollinear<int64_t>(const Point<int64_t>&, const Point<int64_t>&, const Point<int64_t>&, double);
-template Path<int64_t> TranslatePath<int64_t>(const Path<int64_t>&, int64_t, int64_t);
-template Path<double>  TranslatePath<double>(const Path<double>&, double, double);
-template Paths<int64_t> TranslatePaths<int64_t>(const Paths<int64_t>&, int64_t, int64_t);
-template Paths<double>  TranslatePaths<double>(const Paths<double>&, double, double);
-template Path<int64_t> StripNearEqual<int64_t>(const Path<int64_t>&, double, bool);
-template Path<double>  StripNearEqual<double>(const Path<double>&, double, bool);
-template Paths<int64_t> StripNearEqual<int64_t>(const Paths<int64_t>&, double, bool);
-template Paths<double>  StripNearEqual<double>(const Paths<double>&, double, bool);
-template void StripDuplicates<int64_t>(Path<int64_t>&, bool);
-template void StripDuplicates<double>(Path<double>&, bool);
-template void StripDuplicates<int64_t>(Paths<int64_t>&, bool);
-template void StripDuplicates<double>(Paths<double>&, bool);
-template Rect<int64_t> GetBounds<int64_t>(const Path<int64_t>&);
-template Rect<double>  GetBounds<double>(const Path<double>&);
-template Rect<int64_t> GetBounds<int64_t>(const Paths<int64_t>&);
-template Rect<double>  GetBounds<double>(const Paths<double>&);
-template Rect<double>  GetBounds<double, int64_t>(const Path<int64_t>&);
-template Rect<double>  GetBounds<double, int64_t>(const Paths<int64_t>&);
-template Rect<double>  GetBounds<double, double>(const Paths<double>&);
-template double Area<int64_t>(const Path<int64_t>&);
-template double Area<double>(const Path<double>&);
-template double Area<int64_t>(const Paths<int64_t>&);
-template double Area<double>(const Paths<double>&);
-template bool IsPositive<int64_t>(const Path<int64_t>&);
-template bool IsPositive<double>(const Path<double>&);
-template PointInPolygonResult PointInPolygon<int64_t>(const Point<int64_t>&, const Path<int64_t>&);
-template PointInPolygonResult PointInPolygon<double>(const Point<double>&, const Path<double>&);
-template bool GetSegmentIntersectPt<int64_t>(const Point<int64_t>&, const Point<int64_t>&, const Point<int64_t>&, const Point<int64_t>&, Point<int64_t>&);
-template bool GetSegmentIntersectPt<double>(const Point<double>&, const Point<double>&, const Point<double>&, const Point<double>&, Point<double>&);
-template Point<int64_t> GetClosestPointOnSegment<int64_t>(const Point<int64_t>&, const Point<int64_t>&, const Point<int64_t>&);
-template int CrossProductSign<int64_t>(const Point<int64_t>&, const Point<int64_t>&, const Point<int64_t>&);
-template bool IsCollinear<int64_t>(const Point<int64_t>&, const Point<int64_t>&, const Point<int64_t>&);
-template double CrossProduct<int64_t>(const Point<int64_t>&, const Point<int64_t>&, const Point<int64_t>&);
-template double CrossProduct<double>(const Point<double>&, const Point<double>&);
-template double DotProduct<int64_t>(const Point<int64_t>&, const Point<int64_t>&, const Point<int64_t>&);
-template double DotProduct<double>(const Point<double>&, const Point<double>&);
-template double PerpendicDistFromLineSqrd<int64_t>(const Point<int64_t>&, const Point<int64_t>&, const Point<int64_t>&);
-template double PerpendicDistFromLineSqrd<double>(const Point<double>&, const Point<double>&, const Point<double>&);
-
-// ---- scaling ----------------------------------------------------------------
-template Path<int64_t> ScalePath<int64_t, double>(const Path<double>&, double, double, int&);
-template Path<double>  ScalePath<double, int64_t>(const Path<int64_t>&, double, double, int&);
-template Path<int64_t> ScalePath<int64_t, double>(const Path<double>&, double, int&);
-template Path<double>  ScalePath<double, int64_t>(const Path<int64_t>&, double, int&);
-template Paths<int64_t> ScalePaths<int64_t, double>(const Paths<double>&, double, double, int&);
-template Paths<double>  ScalePaths<double, int64_t>(const Paths<int64_t>&, double, double, int&);
-template Paths<int64_t> ScalePaths<int64_t, double>(const Paths<double>&, double, int&);
-template Paths<double>  ScalePaths<double, int64_t>(const Paths<int64_t>&, double, int&);
-template Rect<int64_t> ScaleRect<int64_t, double>(const Rect<double>&, double);
-template Path<int64_t> TransformPath<int64_t, double>(const Path<double>&);
-template Paths<int64_t> TransformPaths<int64_t, double>(const Paths<double>&);
-
-// ---- MakePath ------------------------------------------------------------------
-template Path64 MakePath<int, true>(const std::vector<int>&);
-template Path64 MakePath<int64_t, true>(const std::vector<int64_t>&);
-template PathD MakePathD<double, true>(const std::vector<double>&);
-template PathD MakePathD<int, true>(const std::vector<int>&);
-
-// ---- export-layer templates --------------------------------------------------------
-template int64_t* CreateCPathsFromPathsT<int64_t>(const Paths<int64_t>&);
-template Path<int64_t> ConvertCPathToPathT<int64_t>(int64_t*);
-template Path<double> ConvertCPathToPathT<double>(double*);
-template Paths<int64_t> ConvertCPathsToPathsT<int64_t>(int64_t*);
-template Paths<double> ConvertCPathsToPathsT<double>(double*);
-template void GetPathCountAndCPathsArrayLen<int64_t>(const Paths<int64_t>&, size_t&, size_t&);
-template void GetPathCountAndCPathsArrayLen<double>(const Paths<double>&, size_t&, size_t&);
-
-} // namespace Clipper2Lib
-
-// odr-use of the non-template inline API so that IR is emitted for it
+// Everything is instantiated by *use* (calls with arguments of the right types), never by explicit instantiation or by
+// casting to an exact function-pointer type: a call keeps compiling when a parameter changes between by-value and
+// by-reference, gains a default argument or a cv-qualifier, so such edits to the library do not break the extraction.
 namespace verif_driver {
 using namespace Clipper2Lib;
-void* const api_table[] = {
-  (void*)static_cast<Paths64(*)(ClipType, FillRule, const Paths64&, const Paths64&)>(&BooleanOp),
-  (void*)static_cast<void(*)(ClipType, FillRule, const Paths64&, const Paths64&, PolyTree64&)>(&BooleanOp),
-  (void*)static_cast<PathsD(*)(ClipType, FillRule, const PathsD&, const PathsD&, int)>(&BooleanOp),
-  (void*)static_cast<void(*)(ClipType, FillRule, const PathsD&, const PathsD&, PolyTreeD&, int)>(&BooleanOp),
-  (void*)static_cast<Paths64(*)(const Paths64&, const Paths64&, FillRule)>(&Intersect),
-  (void*)static_cast<PathsD(*)(const PathsD&, const PathsD&, FillRule, int)>(&Intersect),
-  (void*)static_cast<Paths64(*)(const Paths64&, const Paths64&, FillRule)>(&Union),
-  (void*)static_cast<PathsD(*)(const PathsD&, const PathsD&, FillRule, int)>(&Union),
-  (void*)static_cast<Paths64(*)(const Paths64&, FillRule)>(&Union),
-  (void*)static_cast<PathsD(*)(const PathsD&, FillRule, int)>(&Union),
-  (void*)static_cast<Paths64(*)(const Paths64&, const Paths64&, FillRule)>(&Difference),
-  (void*)static_cast<PathsD(*)(const PathsD&, const PathsD&, FillRule, int)>(&Difference),
-  (void*)static_cast<Paths64(*)(const Paths64&, const Paths64&, FillRule)>(&Xor),
-  (void*)static_cast<PathsD(*)(const PathsD&, const PathsD&, FillRule, int)>(&Xor),
-  (void*)static_cast<Paths64(*)(const Paths64&, double, JoinType, EndType, double, double)>(&InflatePaths),
-  (void*)static_cast<PathsD(*)(const PathsD&, double, JoinType, EndType, double, int, double)>(&InflatePaths),
-  (void*)static_cast<Paths64(*)(const Rect64&, const Paths64&)>(&RectClip),
-  (void*)static_cast<Paths64(*)(const Rect64&, const Path64&)>(&RectClip),
-  (void*)static_cast<PathsD(*)(const RectD&, const PathsD&, int)>(&RectClip),
-  (void*)static_cast<PathsD(*)(const RectD&, const PathD&, int)>(&RectClip),
-  (void*)static_cast<Paths64(*)(const Rect64&, const Paths64&)>(&RectClipLines),
-  (void*)static_cast<Paths64(*)(const Rect64&, const Path64&)>(&RectClipLines),
-  (void*)static_cast<PathsD(*)(const RectD&, const PathsD&, int)>(&RectClipLines),
-  (void*)static_cast<PathsD(*)(const RectD&, const PathD&, int)>(&RectClipLines),
-  (void*)static_cast<Path64(*)(const Path64&, bool)>(&TrimCollinear),
-  (void*)static_cast<PathD(*)(const PathD&, int, bool)>(&TrimCollinear),
-  (void*)static_cast<Paths64(*)(const Path64&, const Path64&, bool)>(&MinkowskiSum),
-  (void*)static_cast<PathsD(*)(const PathD&, const PathD&, bool, int)>(&MinkowskiSum),
-  (void*)static_cast<Paths64(*)(const Path64&, const Path64&, bool)>(&MinkowskiDiff),
-  (void*)static_cast<PathsD(*)(const PathD&, const PathD&, bool, int)>(&MinkowskiDiff),
-  (void*)static_cast<Paths64(*)(const PolyTree64&)>(&PolyTreeToPaths64),
-  (void*)static_cast<PathsD(*)(const PolyTreeD&)>(&PolyTreeToPathsD),
-  (void*)static_cast<bool(*)(const PolyTree64&)>(&CheckPolytreeFullyContainsChildren),
-  (void*)static_cast<Path64(*)(const Path64&, int64_t, int64_t)>(&TranslatePath),
-  (void*)static_cast<Paths64(*)(const Paths64&, int64_t, int64_t)>(&TranslatePaths),
-};
+
+void use_templates()
+{
+  Path64 p64; PathD pd; Paths64 pp64; PathsD ppd; Point64 pt64; PointD ptd; Rect64 r64; RectD rd;
+  std::vector<bool> flags; int ec = 0; double dbl = 0; size_t n1 = 0, n2 = 0; int64_t i64 = 0;
+  // ---- path utilities (clipper.h / clipper.core.h) ---------------------------
+  (void)SimplifyPath(p64, 1.0, true); (void)SimplifyPath(pd, 1.0, true);
+  (void)SimplifyPaths(pp64, 1.0, true); (void)SimplifyPaths(ppd, 1.0, true);
+  RDP(p64, n1, n2, 1.0, flags); RDP(pd, n1, n2, 1.0, flags);
+  (void)RamerDouglasPeucker(p64, 1.0); (void)RamerDouglasPeucker(pd, 1.0);
+  (void)RamerDouglasPeucker(pp64, 1.0); (void)RamerDouglasPeucker(ppd, 1.0);
+  (void)Ellipse(pt64, 1.0, 1.0, n1); (void)Ellipse(ptd, 1.0, 1.0, n1);
+  (void)Ellipse(r64, n1); (void)Ellipse(rd, n1);
+  (void)Length(p64, true); (void)Length(pd, true);
+  (void)Distance(pt64, pt64); (void)NearCollinear(pt64, pt64, pt64, 1.0);
+  (void)TranslatePath(p64, i64, i64); (void)TranslatePath(pd, dbl, dbl);
+  (void)TranslatePaths(pp64, i64, i64); (void)TranslatePaths(ppd, dbl, dbl);
+  (void)StripNearEqual(p64, 1.0, true); (void)StripNearEqual(pd, 1.0, true);
+  (void)StripNearEqual(pp64, 1.0, true); (void)StripNearEqual(ppd, 1.0, true);
+  StripDuplicates(p64, true); StripDuplicates(pd, true); StripDuplicates(pp64, true); StripDuplicates(ppd, true);
+  (void)GetBounds(p64); (void)GetBounds(pd); (void)GetBounds(pp64); (void)GetBounds(ppd);
+  (void)GetBounds<double, int64_t>(p64); (void)GetBounds<double, int64_t>(pp64); (void)GetBounds<double, double>(ppd);
+  (void)Area(p64); (void)Area(pd); (void)Area(pp64); (void)Area(ppd);
+  (void)IsPositive(p64); (void)IsPositive(pd);
+  (void)PointInPolygon(pt64, p64); (void)PointInPolygon(ptd, pd);
+  (void)GetSegmentIntersectPt(pt64, pt64, pt64, pt64, pt64); (void)GetSegmentIntersectPt(ptd, ptd, ptd, ptd, ptd);
+  (void)GetClosestPointOnSegment(pt64, pt64, pt64);
+  (void)CrossProductSign(pt64, pt64, pt64); (void)IsCollinear(pt64, pt64, pt64);
+  (void)CrossProduct(pt64, pt64, pt64); (void)CrossProduct(ptd, ptd);
+  (void)DotProduct(pt64, pt64, pt64); (void)DotProduct(ptd, ptd);
+  (void)PerpendicDistFromLineSqrd(pt64, pt64, pt64); (void)PerpendicDistFromLineSqrd(ptd, ptd, ptd);
+  // ---- scaling ----------------------------------------------------------------
+  (void)ScalePath<int64_t, double>(pd, dbl, dbl, ec); (void)ScalePath<double, int64_t>(p64, dbl, dbl, ec);
+  (void)ScalePath<int64_t, double>(pd, dbl, ec); (void)ScalePath<double, int64_t>(p64, dbl, ec);
+  (void)ScalePaths<int64_t, double>(ppd, dbl, dbl, ec); (void)ScalePaths<double, int64_t>(pp64, dbl, dbl, ec);
+  (void)ScalePaths<int64_t, double>(ppd, dbl, ec); (void)ScalePaths<double, int64_t>(pp64, dbl, ec);
+  (void)ScaleRect<int64_t, double>(rd, dbl);
+  (void)TransformPath<int64_t, double>(pd); (void)TransformPaths<int64_t, double>(ppd);
+  // ---- MakePath ------------------------------------------------------------------
+  std::vector<int> vi; std::vector<int64_t> vl; std::vector<double> vd;
+  (void)MakePath(vi); (void)MakePath(vl); (void)MakePathD(vd); (void)MakePathD(vi);
+  // ---- export-layer templates --------------------------------------------------------
+  int64_t* c64 = nullptr; double* cd = nullptr;
+  (void)CreateCPathsFromPathsT<int64_t>(pp64);
+  (void)ConvertCPathToPathT<int64_t>(c64); (void)ConvertCPathToPathT<double>(cd);
+  (void)ConvertCPathsToPathsT<int64_t>(c64); (void)ConvertCPathsToPathsT<double>(cd);
+  GetPathCountAndCPathsArrayLen(pp64, n1, n2); GetPathCountAndCPathsArrayLen(ppd, n1, n2);
+}
+
+// use of the non-template inline API so that bodies are analysed and IR is emitted for them
+void use_free_functions()
+{
+  Path64 p64; PathD pd; Paths64 pp64; PathsD ppd; Rect64 r64; RectD rd; PolyTree64 t64; PolyTreeD td; int64_t i64 = 0;
+  (void)BooleanOp(ClipType::Union, FillRule::NonZero, pp64, pp64);
+  BooleanOp(ClipType::Union, FillRule::NonZero, pp64, pp64, t64);
+  (void)BooleanOp(ClipType::Union, FillRule::NonZero, ppd, ppd, 2);
+  BooleanOp(ClipType::Union, FillRule::NonZero, ppd, ppd, td, 2);
+  (void)Intersect(pp64, pp64, FillRule::NonZero); (void)Intersect(ppd, ppd, FillRule::NonZero, 2);
+  (void)Union(pp64, pp64, FillRule::NonZero); (void)Union(ppd, ppd, FillRule::NonZero, 2);
+  (void)Union(pp64, FillRule::NonZero); (void)Union(ppd, FillRule::NonZero, 2);
+  (void)Difference(pp64, pp64, FillRule::NonZero); (void)Difference(ppd, ppd, FillRule::NonZero, 2);
+  (void)Xor(pp64, pp64, FillRule::NonZero); (void)Xor(ppd, ppd, FillRule::NonZero, 2);
+  (void)InflatePaths(pp64, 1.0, JoinType::Round, EndType::Polygon, 2.0, 0.0);
+  (void)InflatePaths(ppd, 1.0, JoinType::Round, EndType::Polygon, 2.0, 2, 0.0);
+  (void)RectClip(r64, pp64); (void)RectClip(r64, p64); (void)RectClip(rd, ppd, 2); (void)RectClip(rd, pd, 2);
+  (void)RectClipLines(r64, pp64); (void)RectClipLines(r64, p64); (void)RectClipLines(rd, ppd, 2); (void)RectClipLines(rd, pd, 2);
+  (void)TrimCollinear(p64, false); (void)TrimCollinear(pd, 2, false);
+  (void)MinkowskiSum(p64, p64, true); (void)MinkowskiSum(pd, pd, true, 2);
+  (void)MinkowskiDiff(p64, p64, true); (void)MinkowskiDiff(pd, pd, true, 2);
+  (void)PolyTreeToPaths64(t64); (void)PolyTreeToPathsD(td);
+  (void)CheckPolytreeFullyContainsChildren(t64);
+  (void)TranslatePath(p64, i64, i64); (void)TranslatePaths(pp64, i64, i64);
+}
 
 // odr-use of the public member functions that are defined inline in headers
 void use_members()
